@@ -45,7 +45,8 @@ fn fwd(op: &Op, _ctx: &dyn Context, operands: &mut dyn CoordinateSet) -> usize {
 
             let q = ancillary::qs(lat.sin(), e);
             // (at the pole itself, rounding may leave us with a tiny negative number)
-            let rho = a * (qp + sign * q).max(0.).sqrt();
+            // (clamp() lets a NaN input remain a NaN, unlike max())
+            let rho = a * (qp + sign * q).clamp(0., f64::INFINITY).sqrt();
 
             let easting = x_0 + rho * sin_lon;
             let northing = y_0 + sign * rho * cos_lon;
